@@ -1069,6 +1069,7 @@ func (s *Specifier) UnmarshalText(b []byte) error {
 	if len(b) > len(s) {
 		return fmt.Errorf("specifier %v too long (%v > 16)", b, len(b))
 	}
+	*s = Specifier{} // a shorter text must not keep the tail of the previous value
 	copy(s[:], b)
 	return nil
 }
